@@ -602,11 +602,13 @@ func (p *Process) StartWith(ctx context.Context, element schema.FlowNodeInterfac
 	}
 	switch eventNode := flowNode.(type) {
 	case *startEvent:
-		eventNode.Trigger(ctx)
-
-		// StartAll cease flow monitor
+		// StartAll cease flow monitor. It has to be subscribed before the start
+		// event is triggered, otherwise it can miss the start event's flow trace
+		// and never report completion.
 		sender := p.tracer.RegisterSender()
-		go p.ceaseFlowMonitor(p.subTracer)(ctx, sender)
+		monitor := p.ceaseFlowMonitor(p.subTracer)
+		eventNode.Trigger(ctx)
+		go monitor(ctx, sender)
 		p.tracer.Send(InstantiationTrace{InstanceId: p.id})
 
 	case *throwEvent:
